@@ -133,6 +133,9 @@ fn main() {
                 } else if a == "--max-violations" {
                     cfg.max_violations = args[i + 1].parse().unwrap();
                     i += 2;
+                } else if a == "--solver2" {
+                    cfg.solver2 = Some(args[i + 1].clone());
+                    i += 2;
                 } else if a == "--random-pop" {
                     cfg.random_pop = Some(args[i + 1].parse().unwrap());
                     i += 2;
@@ -198,6 +201,9 @@ fn main() {
                     c.args(["--witnesses", &format!("{}", cfg.n_witnesses / jobs + 1)]);
                     if cfg.closure {
                         c.arg("--closure");
+                    }
+                    if let Some(s2) = &cfg.solver2 {
+                        c.args(["--solver2", s2]);
                     }
                     if let Some(sd) = cfg.random_pop {
                         c.args(["--random-pop", &format!("{}", sd + j as u64 + 1)]);
@@ -277,7 +283,7 @@ fn main() {
             println!("abort={:?} panic={:?} vars={}", o.abort, o.panic_msg, o.arena.vars.len());
             for (j, ev) in o.arena.trace.iter().enumerate() {
                 let pc = symx::solver::inline_path_condition_one(&o.arena, j);
-                println!("{:3} {:?} outcome={} {}", j, ev.kind, ev.outcome, pc.unwrap_or_default());
+                println!("{:3} {:?} outcome={} sig={:x} {}", j, ev.kind, ev.outcome, o.arena.bools[ev.cond as usize].2, pc.unwrap_or_default());
             }
         }
         "replay" => {
